@@ -118,8 +118,17 @@ def _ir_same(a, b):
     return True
 
 
+import itertools as _it
+
+SEQ_TABLE = [(n,) + s + (0,) * (4 - n) for n in (1, 2, 3, 4) for s in _it.product(range(4), repeat=n)]
+
+
+def sequence_idx(i, c):
+    c = realize(c)
+    return sequence(i, *SEQ_TABLE[c])
+
+
 def sequence(i, n, s1, s2, s3, s4):
-    i, n, s1, s2, s3, s4 = realize((i, n, s1, s2, s3, s4))
     with untraced():
         shared = pool_ir(i)
         pristine = deepcopy(shared)
@@ -267,13 +276,12 @@ def obligations(tier, seed):
                 witness=("a", 1), bounds="emitter %s on pool IR %d; prose hole len<=2 over %r and int default in [-2,2] symbolic"
                 % (EMITTERS[w], i, PROSE_A), timeout=150 if tier == "quick" else 600, path_timeout=100, funcs=FUNCS))
     for i in range(6):
+        nseq = len([t for t in SEQ_TABLE if t[0] <= (3 if tier == "quick" else 4)])
         obs.append(Ob(
-            name="sequence_ir%d" % i, params=[("n", "int"), ("s1", "int"), ("s2", "int"), ("s3", "int"), ("s4", "int")],
-            pre=["1 <= n <= %d" % (3 if tier == "quick" else 4), "all(0 <= x < 4 for x in (s1, s2, s3, s4))",
-                 "(n >= 2 or s2 == 0) and (n >= 3 or s3 == 0) and (n >= 4 or s4 == 0)"],
-            body="H.sequence(%d, n, s1, s2, s3, s4)" % i, witness=(1, 3, 0, 0, 0), kind="F",
-            bounds="pool IR %d; every sequence of emitters {class,function,argparse,docstring} of length 1..%d with repetition"
-            % (i, 3 if tier == "quick" else 4), timeout=200 if tier == "quick" else 900, path_timeout=100, funcs=FUNCS))
+            name="sequence_ir%d" % i, params=[("c", "int")], pre=["0 <= c < %d" % nseq],
+            body="H.sequence_idx(%d, c)" % i, witness=(SEQ_TABLE.index((1, 3, 0, 0, 0)),), kind="F",
+            bounds="pool IR %d; every sequence of emitters {class,function,argparse,docstring} of length 1..%d with repetition (%d sequences, table-indexed)"
+            % (i, 3 if tier == "quick" else 4, nseq), timeout=200 if tier == "quick" else 900, path_timeout=100, funcs=FUNCS))
     for i in (1, 6):
         obs.append(Ob(name="sequence_fresh_ir%d" % i, params=[("n", "int"), ("s1", "int"), ("s2", "int"), ("s3", "int")],
                       pre=["1 <= n <= 3", "all(0 <= x < 5 for x in (s1, s2, s3))", "(n >= 2 or s2 == 0) and (n >= 3 or s3 == 0)"],
